@@ -141,8 +141,8 @@ func (c *elSeq) RunCode() string {
 
 // Check: the totals are counters (plain Go integers): ENTER adds one to enter_total, LEAVE to
 // leave_total, a supplied total different from the current one replaces it, ResetTotals zeroes both
-// and leaves direction/occupant alone; an event replaces direction and occupant. Increments at the
-// int32 maximum are outside the claim.
+// and leaves direction/occupant alone; an event replaces direction and occupant. A total at the int32
+// maximum stays there (it must not wrap to a negative count).
 func (c *elSeq) Check(m *lib.Monitor, code string) {
 	if strings.HasPrefix(code, "new:") {
 		m.Violate("C20/enterleave/NewModel/panic", "NewModel panicked: "+lastPanic, c, "no panic", code)
@@ -205,9 +205,10 @@ func (c *elSeq) Check(m *lib.Monitor, code string) {
 				}
 				if inc {
 					if cv == math.MaxInt32 {
-						overflow = true
+						overflow = true // the counter saturates: a total never wraps to a negative number
+					} else {
+						cv++
 					}
-					cv++
 				}
 				return &cv
 			}
@@ -218,11 +219,11 @@ func (c *elSeq) Check(m *lib.Monitor, code string) {
 				occ = o.Occ
 			}
 		}
-		if overflow {
-			return // counter at the int32 maximum: outside the claim (the tie still covers the wrap)
-		}
 		if p[1] != want() {
 			cls := "totals"
+			if overflow {
+				cls = "total-wraps-negative"
+			}
 			g, w := strings.Split(p[1], ","), strings.Split(want(), ",")
 			if len(g) == 4 && g[2] == w[2] && g[3] == w[3] {
 				cls = "other-fields"
@@ -237,13 +238,13 @@ func init() {
 	decoders["enterleave/seq"] = decoder[elSeq]()
 	builders = append(builders, func(f lib.Flags, res *lib.Result, rng *rand.Rand) []*section {
 		s := &section{name: "enterleave/seq",
-			tie: res.Tie("enterleave.Model event sequences", "K1", "random: default options 60% / WithInitialEnterLeaveEvent with any subset of totals present 40% (values 0..5, 3% at int32 max); 1..10 ops: CreateEnterLeaveEvent 85% (direction UNSPECIFIED/ENTER/LEAVE, occupant present 50%, explicit enter/leave total each 25%: equal to current-ish small value or new) / ResetTotals 15%; short first; non-trivial = has an ENTER or LEAVE event; distinct by request line"),
+			tie: res.Tie("enterleave.Model event sequences", "K1", "random: default options 60% / WithInitialEnterLeaveEvent with any subset of totals present 40% (values 0..5, 5% at or within 2 of the int32 maximum); 1..10 ops: CreateEnterLeaveEvent 85% (direction UNSPECIFIED/ENTER/LEAVE, occupant present 50%, explicit enter/leave total each 25%: equal to current-ish small value or new) / ResetTotals 15%; short first; non-trivial = has an ENTER or LEAVE event; distinct by request line"),
 			mon: res.Monitor("enterleave.totals are counters", "plain integer counters: ENTER/LEAVE increment their total, explicit different total overrides, ResetTotals zeroes both and changes nothing else; no panic")}
 		n := f.N(1500, 20000)
 		small := func() *int32 {
 			v := int32(rng.Intn(6))
-			if rng.Intn(33) == 0 {
-				v = math.MaxInt32
+			if rng.Intn(20) == 0 {
+				v = math.MaxInt32 - int32(rng.Intn(3)) // at and just below the saturation point
 			}
 			return &v
 		}
